@@ -687,7 +687,7 @@ func (d *hoDriver) mutatedProcess(h int64, round, proposer int, now time.Time, v
 		txs = append([][]byte{blockTx(p, proposer, sim.SignOpts{})}, rest...)
 	case "blob":
 		p := clone()
-		p.BlobGasUsed = 131072
+		p.BlobGasUsed = []uint64{1, 2, 65536, 131071, 131072, 131073, 262144}[r.Intn(7)] // any blob gas at all, not only whole blobs
 		rehash(p)
 		txs = append([][]byte{blockTx(p, proposer, sim.SignOpts{})}, rest...)
 	case "engineInvalid", "engineSyncing":
